@@ -415,6 +415,81 @@ let run (type a) (k : a c01_ops) (parse : string -> a) (show : a -> string)
      | "vminus" -> let (r, st') = c01_cell_binop k k.c01_sub st O m in (obs (show r) (show (cell st' 0)) (show bval), obs (show (k.c01_sub a bval)) (show a) (show bval))
      | "mneg" | "vneg" -> let (r, st') = c01_cell_neg k st O in (obs (show r) (show (cell st' 0)) (show bval), obs (show (k.c01_opp a)) (show a) (show bval))
      | _ -> failwith "xr/xw op")
+  (* the scalar argument is an entry of the receiver (model: read once, the code after fix C01-8) *)
+  | "xvelem" | "xdelem" ->
+    let _ = take1 () in
+    let y = if op = "xvelem" then take r else [] in let x = take r in
+    let i0 = nat_of_int p in let k0 = c01_at k x i0 in
+    let q = get (c01_vdiv k x k0) in
+    let parts = [c01_vec_elem k (fun _ a s -> k.c01_add a s) x i0; c01_vec_elem k (fun _ a s -> k.c01_sub a s) x i0;
+                 c01_vec_elem k (fun _ a s -> k.c01_mul a s) x i0; q]
+                @ (if op = "xvelem" then [c01_vec_elem k (fun i a s -> k.c01_add a (k.c01_mul s (c01_at k y i))) x i0] else []) in
+    let sparts = [List.map (fun a -> k.c01_add a k0) x; List.map (fun a -> k.c01_sub a k0) x; List.map (fun a -> k.c01_mul a k0) x; get (c01s_vdiv k x k0)]
+                 @ (if op = "xvelem" then [c01s_vadd k x (c01s_vscale k k0 y)] else []) in
+    let j l = String.concat "|" (List.map sv l) in
+    let b = if op = "xvelem" then sv y else "-" in
+    (obs (j parts) (sv x) b, obs (j sparts) (sv x) b)
+  | "xmelem" ->
+    let _ = take1 () in let b = takem r c in let a = takem r c in
+    let k0 = c01_get k a (nat_of_int (p / c)) (nat_of_int (p mod c)) in
+    let j l = String.concat "|" (List.map sm l) in
+    (obs (j [c01_mscale k a k0; get (c01_mdiv k a k0); c01_maxpy k a k0 b]) (sm a) (sm b),
+     obs (j [List.map (List.map (fun v -> k.c01_mul v k0)) a; get (c01s_mdiv k a k0); c01s_madd k a (c01s_mscale k k0 b)]) (sm a) (sm b))
+  | "xkelemN" | "xkelemT" ->
+    let _ = take1 () in
+    let (st, sa, dense) = read_mat rep r c in
+    let nk = (op = "xkelemN") in
+    let (xs, ys) = if nk then (c, r) else (r, c) in
+    let x = take xs in let y = take ys in
+    let al = c01_at k y (nat_of_int p) in
+    if nk then (obs (sv (kern st "usmv" al x y)) sa (sv x), obs (sv (spec_kern "usmv" al nc dense x y)) sa (sv x))
+    else (obs (sv (kern st "usmtv" al x y) ^ "|" ^ sv (kern st "usmhv" al x y)) sa (sv x),
+          obs (sv (spec_kern "usmtv" al nc dense x y) ^ "|" ^ sv (spec_kern "usmhv" al nc dense x y)) sa (sv x))
+  | "xmself" ->
+    let s = take1 () in
+    if rep = "DG" then begin
+      let d = take r in
+      (obs (sv (c01_vec_inplace_self k k.c01_add d) ^ "|" ^ sv (c01_vec_inplace_self k k.c01_sub d) ^ "|" ^ b01 (c01_veq k d d)) (sv d) "-",
+       obs (sv (c01s_vadd k d d) ^ "|" ^ sv (c01s_vsub k d d) ^ "|1") (sv d) "-")
+    end else begin
+      let a = takem r c in
+      (obs (sm (c01_madd k a a) ^ "|" ^ sm (c01_msub k a a) ^ "|" ^ sm (c01_maxpy k a s a) ^ "|" ^ b01 (c01_meq k a a)) (sm a) "-",
+       obs (sm (c01s_madd k a a) ^ "|" ^ sm (c01s_msub k a a) ^ "|" ^ sm (c01s_madd k a (c01s_mscale k s a)) ^ "|1") (sm a) "-")
+    end
+  | "xhist" ->
+    let s = take1 () in
+    if rep = "DV" then begin
+      let x = take r in let y = take r in
+      let b = c01_resize (c01_vadd k x y) (nat_of_int (r + 2)) s in
+      let a1 = c01_vaxpy k y s x in
+      let a2 = c01_resize (c01_resize (c01_resize a1 nr k.c01_O) (nat_of_int 1) k.c01_O) nr s in
+      let a3 = c01_vsub k (c01_vsub k a2 x) x in
+      let spa = List.mapi (fun i xi -> let v = if i = 0 then k.c01_add (List.nth y 0) (k.c01_mul s xi) else s in k.c01_sub (k.c01_sub v xi) xi) x in
+      let spb = c01s_vadd k x y @ [s; s] in
+      (obs (sv a3) (sv b) (sv x ^ "|" ^ sv y), obs (sv spa) (sv spb) (sv x ^ "|" ^ sv y))
+    end else begin
+      let a = takem r c in let x = take c in let y = take r in
+      let y1 = c01_umv k a x (c01_umv k a x y) in
+      let zeros = c01_mresize nc nr k.c01_O in
+      let a2 = c01_set2 (c01_mfill zeros s) O O (List.hd y) in
+      let y2 = c01_umv k a2 y x in
+      let t = c01_mresize (nat_of_int 1) (nat_of_int 1) s in
+      let two v = k.c01_add v v in
+      let spy1 = c01s_vadd k y (c01s_vscale k (two k.c01_I) (c01s_mat_vec k a x)) in
+      let spa2 = List.init c (fun i -> List.init r (fun j -> if i = 0 && j = 0 then List.hd y else s)) in
+      let spy2 = c01s_vadd k x (c01s_mat_vec k spa2 y) in
+      let b m = sm zeros ^ "|" ^ sm m ^ "|" ^ sm t in
+      (obs (sv y1) (sv y2) (b a2), obs (sv spy1) (sv spy2) (b spa2))
+    end
+  | "xalloc" ->
+    let s = take1 () in let x = take r in
+    let a = c01_fill x s in
+    let cc = c01_vadd k x a in
+    let d = c01_vsub k (c01_vzero k nr) cc in
+    let spc = List.map (fun v -> k.c01_add v s) x in
+    let spd = List.map (fun v -> k.c01_opp v) spc in
+    let tail = "|7,7,9,5,3,0" in
+    (obs (sv cc) (sv d) (sv a ^ tail), obs (sv spc) (sv spd) (sv (List.map (fun _ -> s) x) ^ tail))
   | "xselfleft" | "xselfright" ->
     let a = takem r r in
     (* model: the code after fix C01-5 (aliased call goes through a copy of the factor) *)
@@ -451,7 +526,7 @@ let () =
        let r = int_of_string r and c = int_of_string c and p = int_of_string p in
        let (m, s) =
          (try
-           if f = "Z" || f = "D" then run c01_Z_ops parse_z show_z (Some c01_Z_abs) c01_Z_abs c01_Z_abs2 c01_Z_cmp4 op rep rep2 r c p toks
+           if f = "Z" || f = "D" || f = "L" || f = "S" then run c01_Z_ops parse_z show_z (Some c01_Z_abs) c01_Z_abs c01_Z_abs2 c01_Z_cmp4 op rep rep2 r c p toks
            else if f = "C" then run c01_G_ops parse_g show_g None c01_G_absreal c01_G_abs2 (fun _ _ -> []) op rep rep2 r c p toks
            else if String.length f > 1 && f.[0] = 'F' then
              let pp = int_of_string (String.sub f 1 (String.length f - 1)) in
